@@ -370,8 +370,7 @@ func CollectTraces(c *rt.Case, info *CaseInfo, sc Scenario, maxExecs int) *Trace
 	}))
 	defer rt.SetBackend(nil)
 	seen := map[string]bool{}
-	e := &sched.Explorer{MaxExecs: maxExecs, NoPrune: true, KeepLog: true}
-	e.Setup = func(w *sched.World) func() {
+	setupFn := func(w *sched.World) func() {
 		return func() {
 			ctx := vctx.New()
 			if sc.Cancel {
@@ -389,7 +388,7 @@ func CollectTraces(c *rt.Case, info *CaseInfo, sc Scenario, maxExecs int) *Trace
 			sched.MainReturn(term + "\x1f" + es)
 		}
 	}
-	e.AfterRun = func(w *sched.World, choices []int, cut bool) {
+	afterRun := func(w *sched.World, choices []int, cut bool) {
 		if cut {
 			return
 		}
@@ -417,6 +416,16 @@ func CollectTraces(c *rt.Case, info *CaseInfo, sc Scenario, maxExecs int) *Trace
 			ts.Traces = append(ts.Traces, tr)
 		}
 	}
+	if info.POR {
+		// large shapes: one interleaving per Mazurkiewicz trace (the unpruned enumeration is out of reach); each of
+		// them is a complete provider-level order that can be forced on the real injector
+		d := &sched.DPOR{MaxExecs: maxExecs, KeepLog: true, Setup: setupFn}
+		d.AfterRun = func(w *sched.World, choices []int, complete bool) { afterRun(w, choices, !complete) }
+		d.Explore()
+		ts.Execs, ts.Capped, ts.POR = d.Execs, d.Capped, true
+		return ts
+	}
+	e := &sched.Explorer{MaxExecs: maxExecs, NoPrune: true, KeepLog: true, Setup: setupFn, AfterRun: afterRun}
 	e.Explore()
 	ts.Execs, ts.Capped = e.Execs, e.Capped
 	return ts
